@@ -380,13 +380,45 @@ def check_wrappers(res, facts, entries):
             if (t["callee"].get("resolved") or t["callee"].get("def")) == vc["id"]:
                 callers.append((bid, bi, t))
     gen_cons = {e.id: e for e in S.select(entries, "generic", "consumer")}
+    # who may reach verify_claims: the 8 parse methods and non-public helpers / closures that only they call
+    g = M.call_graph(facts)
+    rev = {}
+    for a, bs_ in g.items():
+        for b_ in bs_:
+            rev.setdefault(b_, set()).add(a)
+
+    def only_from(x, roots, seen=None):
+        seen = seen or set()
+        if x in roots:
+            return True
+        if x in seen:
+            return True
+        seen.add(x)
+        b_ = facts.bodies.get(x)
+        if b_ is None or (b_.get("vis") == "pub" and "{closure" not in x):
+            return False
+        cs = rev.get(x, set())
+        return bool(cs) and all(only_from(c_, roots, seen) for c_ in cs)
     for bid, bi, t in callers:
-        ok = bid in gen_cons
+        ok = only_from(bid, set(gen_cons))
         res.oblige(ok)
         if not ok:
             res.violate("C03.R6", bid, "verify_claims called outside the parse entry points", "claims may be examined on text that has not been authenticated", file=M.view(facts, facts.bodies[bid]).file(), line=t["ln"])
+    from .. import claims_sem, layers
+    sem = {}
+    for f in claims_sem.parse_contracts(facts, entries):
+        sem[f.where] = f
     for e in gen_cons.values():
         v = M.view(facts, e.body)
+        f = sem.get(e.id)
+        if f is not None and f.ok is not None:
+            # semantic contract (rules/claims_sem.py): core call with the parser's expectations, verify_claims only on its Ok value
+            res.oblige(f.ok)
+            if f.ok:
+                res.inst("C03.R6", f.desc)
+            else:
+                res.violate("C03.R6", f.where, f.construct, f.msg, file=f.file, line=f.line)
+            continue
         N = M.Normalizer(facts, keep=KEEP)
         info = S.auth_info(facts, e.body)
         calls = [(bi, t) for bi, t in v.calls if (t["callee"].get("resolved") or t["callee"].get("def")) == vc["id"]]
@@ -419,15 +451,25 @@ def check_wrappers(res, facts, entries):
         for bi, t in v.calls:
             c = t["callee"]
             td = M.callee_trait_def(c)
-            if re.search(r"^serde_json::de::from_str$|^serde_json::de::from_slice$", td) and re.search(r"parsers::|paseto_parser", bid):
+            if re.search(r"^serde_json::de::from_str$|^serde_json::de::from_slice$", td) and re.search(r"parsers::|paseto_parser", bid) and not only_from(bid, {vc["id"]}):
                 res.oblige(False)
                 res.violate("C03.R6", bid, "token JSON parsed outside verify_claims", "serde_json deserialisation in the parser layer outside verify_claims", file=v.file(), line=t["ln"])
-            if re.search(r"core::ops::function::Fn::call$", td) and "ValidatorFn" in " ".join(c.get("gargs", [])) + M.callee_name(c) or (re.search(r"core::ops::function::Fn::call$", td) and re.search(r"dyn .*Fn\(&.*str, &.*Value\)", M.callee_name(c))):
+            if (re.search(r"core::ops::function::Fn::call$", td) and "ValidatorFn" in " ".join(c.get("gargs", [])) + M.callee_name(c) or (re.search(r"core::ops::function::Fn::call$", td) and re.search(r"dyn .*Fn\(&.*str, &.*Value\)", M.callee_name(c)))) and not only_from(bid, {vc["id"]}):
                 res.oblige(False)
                 res.violate("C03.R6", bid, "validator invoked outside verify_claims", "a claim validator is called in %s" % M.short(bid), file=v.file(), line=t["ln"])
     # prelude parsers only delegate
+    lay = layers.analyse(facts, entries)
     for e in S.select(entries, "prelude", "consumer"):
         v = M.view(facts, e.body)
+        fs, _why = lay.get(e.id, (None, None))
+        if fs is not None:
+            f = [x for x in fs if x.rule == "C03.R6"][0]
+            res.oblige(f.ok)
+            if f.ok:
+                res.inst("C03.R6", f.desc)
+            else:
+                res.violate("C03.R6", f.where, f.construct, f.msg, file=f.file, line=f.line)
+            continue
         names = [(t["callee"].get("resolved") or t["callee"].get("def")) for _, t in v.calls]
         ok = len(names) == 1 and names[0] in gen_cons and gen_cons[names[0]].vp == e.vp
         res.oblige(ok)
